@@ -61,6 +61,21 @@ CLAIMED["C04"] = (
     "DESIGN.md §5 C04",
 )
 
+CLAIMED["C06"] = (
+    "Kernel-checked theorems for arbitrary id populations: max+1 and first-gap shape-id allocation are positive and "
+    "unused (first-gap also minimal; pigeonhole), _next_rId and next_partname never fail and return an unused name "
+    "(pigeonhole over Nat.repr-injective candidate names), first-free image/media index is unused (sorted scan, duplicates "
+    "allowed), slide id = max+1 in 256..2147483647 on the common path and unused/in-range on the fallback path; any "
+    "interleaving of slide-level, nested-group, group-shape/freeform and turbo allocations keeps ids pairwise distinct and "
+    "existing ids untouched (induction over the op list, turbo restricted to its documented single-proxy use).  Tied to the "
+    "code by exact correspondence on seeded populations through the public API, plus end-to-end uniqueness/stability "
+    "checks on saved files after mixed histories over decks with scrambled slide part names.",
+    "Trusted: which allocator each add_* method uses is observed; slide-id fallback theorem is stated on the sorted valid "
+    "list (partial); turbo + second proxy is the documented limitation (negative theorem, not judged).",
+    "Lean 4 proof (pigeonhole, induction over allocation histories) + seeded correspondence + end-to-end oracles",
+    "DESIGN.md §5 C06",
+)
+
 NOT_YET = {}
 
 
